@@ -1,0 +1,58 @@
+//go:build verif
+// +build verif
+
+package network
+
+import (
+	"github.com/LemoFoundationLtd/lemochain-core/network/p2p"
+)
+
+// Hooks for the C15 verification harness in /verif (build tag "verif" only). They expose unexported
+// entry points and read-only state of the protocol manager; they add no behaviour of their own.
+
+// VerifC15Peer is the unexported per-connection wrapper the message handlers work with.
+type VerifC15Peer = peer
+
+// VerifC15NewPeer wraps a p2p connection exactly as peerLoop does for a new connection.
+func VerifC15NewPeer(c p2p.IPeer) *VerifC15Peer { return newPeer(c) }
+
+// VerifC15Work is the unexported message dispatcher.
+func VerifC15Work(pm *ProtocolManager, msg *p2p.Msg, p *VerifC15Peer) error { return pm.work(msg, p) }
+
+// VerifC15HandlePeer is the per-connection routine peerLoop starts for every new connection
+// (protocol handshake, registration, message loop).
+func VerifC15HandlePeer(pm *ProtocolManager, p *VerifC15Peer) { pm.handlePeer(p) }
+
+// VerifC15RcvBlockLoop is the loop Start() runs for received blocks (returns when the manager quits).
+func VerifC15RcvBlockLoop(pm *ProtocolManager) { pm.rcvBlockLoop() }
+
+// VerifC15Register / VerifC15Registered: the connected-peer set.
+func VerifC15Register(pm *ProtocolManager, p *VerifC15Peer) { pm.peers.Register(p) }
+func VerifC15Registered(pm *ProtocolManager) int             { return pm.peers.Size() }
+
+// VerifC15SetTest switches the existing test step signal on and returns its channel.
+func VerifC15SetTest(pm *ProtocolManager) <-chan int {
+	pm.setTest()
+	return pm.testOutput
+}
+
+// VerifC15RcvBlocksSignal is the value the step signal carries after a received block list was processed;
+// VerifC15QueueTimerSignal after one pass over the orphan-block cache.
+const (
+	VerifC15RcvBlocksSignal  = testRcvBlocks
+	VerifC15QueueTimerSignal = testQueueTimer
+)
+
+// VerifC15UnSub detaches the manager from the process-wide event bus (what Stop does first).
+func VerifC15UnSub(pm *ProtocolManager) { pm.unSub() }
+
+// VerifC15Quit closes the quit channel (what Stop does second) without waiting.
+func VerifC15Quit(pm *ProtocolManager) { close(pm.quitCh) }
+
+// VerifC15CacheSizes returns the number of cached confirms (for unknown blocks) and cached orphan blocks.
+func VerifC15CacheSizes(pm *ProtocolManager) (confirms, blocks int) {
+	return pm.confirmsCache.Size(), pm.blockCache.Size()
+}
+
+// VerifC15PeerStatus returns the latest status recorded for a peer.
+func VerifC15PeerStatus(p *VerifC15Peer) LatestStatus { return p.LatestStatus() }
